@@ -14,7 +14,9 @@ EXPLANATION = (
     "looks each field up and the keys listed by db_keys agree; db_id is taken from element.id and never written as a value.")
 DECIDED = ["R22a derive generators: same field sequence, key through field_name, same classification (SIBLING)",
            "R22b per-type key tables of to_db_values / from_db_element / db_keys agree (TABLE)",
-           "R08c properties die with the element (shared with C08)"]
+           "R08c properties die with the element (shared with C08)",
+           "R22c batch entries keyed by alias are looked up when they are applied (same loop nesting as the creation)",
+           "R12a-d value storage codecs (re-evaluated, shared with C12)"]
 UNDECIDED = ["arbitrary user programs outside the workspace (only the generators and the in-workspace expansions are analysed)",
              "value equality after the round trip (needs execution)",
              "the string the generated find_map closure compares with is a promoted constant that is not in the facts; the "
@@ -516,10 +518,59 @@ def r22b(ctx):
     ctx.floor("R22b", "DbType impls analysed", len(imps), 5)
 
 
+def upsert_rule(ctx, rule="R22c"):
+    """A batch of elements keyed by alias is applied entry by entry: whether an entry creates a new element or updates an
+    existing one is decided by an alias look-up made *when that entry is applied* (the same loop iteration / helper call
+    as the creation).  Resolving all ids up front classifies two entries with the same new alias both as "new": the second
+    one creates another node and rebinds the alias instead of updating the element the first one created."""
+    fa = ctx.facts
+    DBI = "agdb::db::DbImpl::"
+    n = 0
+    FILES = ("query/insert_values_query.rs", "query/insert_nodes_query.rs")
+
+    def sites_ok(b, sites, depth=0):
+        """every block of `sites` in body b is preceded by a db_id look-up of the same loop nesting; a body without any
+        look-up is judged at its call sites (the creating helper is called by the function that looked the alias up)"""
+        lookups = [i for i, t in cfg.calls(b) if common.norm(cfg.callee(t) or "") == DBI + "db_id"]
+        loops = cfg.sccs(b)
+        bad = []
+        for c in sites:
+            # (the look-up need not dominate: an entry without an alias is created without one)
+            ok = any(all((l in comp) == (c in comp) for comp in loops) and cfg.find_path(b, [l], [c], leave_start=True) is not None
+                     for l in lookups)
+            if not ok and depth < 2:
+                ups = [(ub, j) for ub, j, tj in common.callers_of(fa, common.norm(b.npath), "agdb") if "::tests::" not in ub.path]
+                # inside the caller the call must not sit in a loop of its own between look-up and creation
+                ok = bool(ups) and not any(c in comp for comp in loops) and all(not sites_ok(ub, [j], depth + 1) for ub, j in ups)
+            if not ok:
+                bad.append(b.loc(c))
+        return bad
+    for b in sorted(fa.bodies.values(), key=lambda x: x.path):
+        if b.crate != "agdb" or not b.file.endswith(FILES):
+            continue
+        creates = [i for i, t in cfg.calls(b) if common.norm(cfg.callee(t) or "") == DBI + "insert_node"]
+        aliases = [i for i, t in cfg.calls(b) if common.norm(cfg.callee(t) or "") in (DBI + "insert_new_alias", DBI + "insert_alias")]
+        if not creates or not aliases:
+            continue            # no creation, or creation without an alias (plain `insert().nodes().count(n)`)
+        n += 1
+        bad = sites_ok(b, creates)
+        name = common.norm(b.root or b.npath).split("::")[-1] + "@" + b.file.split("/")[-1]
+        ctx.ob(rule, "%s:create-after-lookup" % name, not bad,
+               "every insert_node of an aliased entry follows an alias look-up of the same iteration (here or in the caller)" if not bad else
+               "`%s` creates a node for an aliased entry (%s) without an alias look-up made in the same iteration, here or in "
+               "its callers: entries of one batch that name the same new alias create two nodes" % (
+                   common.norm(b.root or b.npath), bad), b.where)
+    ctx.floor(rule, "alias-keyed creation sites (insert values / insert nodes)", n, 2)
+
+
 def run(ctx):
     r22a(ctx)
     r22b(ctx)
     # a typed element read back after its id was re-used must not see the removed element's values (R08c)
     from rules import C08
     C08.r08c(ctx)
+    upsert_rule(ctx)
+    # the properties of a user type are DbValues: their storage codecs are part of the round trip (C12, re-evaluated)
+    from rules import C12
+    C12.run(ctx)
     return 0
